@@ -382,3 +382,20 @@ Example C11_example_memory_attributes :
   gen_get_new_block_mem_instance 100 m = m /\ gen_get_new_block_mem_instance 101 r = r
   /\ gen_get_new_block_mem_instance 102 r' = r /\ r' <> r.
 Proof. vm_compute. repeat split; try reflexivity. intro H. discriminate H. Qed.
+
+(* a full-width select in non-ascending bit order (w[::-1]) is a select like any
+   other for (1): the copy reverses the bits exactly as the source does (input 1
+   shows 8, 6 shows 6, 13 shows 11 on the 4-bit output), it is NOT the identity *)
+Definition ex_rev : netlist :=
+  {| wires := [ mkWire 1 4 KInput; mkWire 2 4 KOutput ];
+     nets := [ mkNet (OpSelect [3; 2; 1; 0]) [1] 2 ];
+     mems := [] |}.
+
+Example C11_example_bit_reversal :
+  let ins := [(fun _ => 1); (fun _ => 6); (fun _ => 13)] in
+  let '(cp, f) := copy_block_gen ex_rev in
+  wfb ex_rev = true
+  /\ probe_at [2] (fst (run ex_rev 0 (init_state ex_rev 0 [] []) ins)) = [[8]; [6]; [11]]
+  /\ probe_at [f 2] (fst (run cp 0 (init_state cp 0 [] []) (map (shift_ins (fresh_offset ex_rev)) ins)))
+     = [[8]; [6]; [11]].
+Proof. vm_compute. repeat split; reflexivity. Qed.
